@@ -187,7 +187,7 @@ where
     loop {
         let mut g = sched.m.lock().unwrap_or_else(|e| e.into_inner());
         while g.state.iter().any(|s| *s == TState::Running) {
-            let (g2, to) = sched.cv_sched.wait_timeout(g, std::time::Duration::from_secs(20)).unwrap_or_else(|e| e.into_inner());
+            let (g2, to) = sched.cv_sched.wait_timeout(g, std::time::Duration::from_secs(90)).unwrap_or_else(|e| e.into_inner());
             g = g2;
             if to.timed_out() && g.state.iter().any(|s| *s == TState::Running) {
                 // a thread is blocked somewhere the hook does not see: report as a hang
@@ -420,7 +420,7 @@ where
         let mut performed: Vec<(K, K)> = vec![];
         let mut finished = 0usize;
         let mut panicked = false;
-        let deadline = std::time::Instant::now() + std::time::Duration::from_secs(20);
+        let deadline = std::time::Instant::now() + std::time::Duration::from_secs(90);
         while finished < threads {
             match rx.recv_timeout(deadline.saturating_duration_since(std::time::Instant::now())) {
                 Ok((_, c, ok)) => {
